@@ -12,6 +12,7 @@ import LbfgsbVerif.Proofs.C02
 import LbfgsbVerif.Proofs.C11
 import LbfgsbVerif.Props.C03
 import LbfgsbVerif.Proofs.Dcsrch
+import LbfgsbVerif.Proofs.LsRange
 import Mathlib.Algebra.Order.Field.Rat
 
 namespace Lbfgsb.C11
@@ -114,7 +115,56 @@ theorem dcsrch_steps_in_range (ftol gtol xtol stpmin stpmax stp0 : α) (answers 
       p.2 = .fg → ¬ p.1 < 0 ∧ ¬ stpmax < p.1 :=
   trace_in_range stpmin stpmax answers _ stp0 .start (fun _ => ⟨rfl, rfl⟩) (fun h => absurd rfl h)
 
+/-- **C11 (6)** with that stepper plugged into the driver's line search (`ConcreteStepper`: the
+oracle *is* the DCSRCH model), the step the search returns lies in
+`[0, max_allowed_steplength]` — any arithmetic (level U). -/
+theorem ls_result_in_range {ε : Type} (u : User α ε) (o : Oracles α (DC α)) (ho : ConcreteStepper o) (c : Cfg α)
+    (x0 : Vec α) (f0 : α) (g0 d : Vec α) (nit : Nat) (sf sf' : SF α) (maxIter : Nat) (olog olog' : List (OReq α))
+    (stp : α) (h : lineSearch u o c x0 f0 g0 d nit sf maxIter olog = .ok (sf', some stp, olog')) :
+    ¬ stp < 0 ∧ ¬ maxAllowedStep x0 d c.lb c.ub c.maxStep nit < stp :=
+  lineSearch_range u o ho c x0 f0 g0 d nit sf sf' maxIter olog olog' stp h
+
+/-- **C11 (7)** … and every user evaluation the search makes is at the clipped trial point of a
+step in that range (level U). -/
+theorem ls_steps_in_range {ε : Type} (u : User α ε) (o : Oracles α (DC α)) (ho : ConcreteStepper o) (c : Cfg α)
+    (x0 : Vec α) (f0 : α) (g0 d : Vec α) (nit : Nat) (sf sf' : SF α) (maxIter : Nat) (olog olog' : List (OReq α))
+    (stp? : Option α) (hc : Coh u.toSFUser sf)
+    (h : lineSearch u o c x0 f0 g0 d nit sf maxIter olog = .ok (sf', stp?, olog')) :
+    ∃ new, sf'.log = sf.log ++ new ∧ ∀ call ∈ new, ∃ stp,
+      (¬ stp < 0 ∧ ¬ maxAllowedStep x0 d c.lb c.ub c.maxStep nit < stp) ∧
+      EvalAt u.toSFUser sf.mode (trial x0 d c.lb c.ub stp) call :=
+  lineSearch_log_range u o ho c x0 f0 g0 d nit sf sf' maxIter olog olog' stp? hc h
+
 end stepper
+
+
+/-! ### Exact arithmetic + the concrete stepper: the line search evaluates feasible points of the ray -/
+section rayF
+open Dcsrch
+variable {α : Type} [Field α] [LinearOrder α] [IsStrictOrderedRing α] [DcOps α]
+attribute [local instance] fieldFloatLike
+
+/-- **C11 (8)** (exact arithmetic, iteration ≥ 1, feasible start, DCSRCH model as the stepper)
+every evaluation of the line search is at `x + a·d` with `0 ≤ a ≤ max_allowed_steplength ≤ maxstep`,
+a point of the box: no projection is ever active. -/
+theorem ls_evals_on_ray {ε : Type} (u : User α ε) (o : Oracles α (DC α)) (ho : ConcreteStepper o) (c : Cfg α)
+    (x0 : Vec α) (f0 : α) (g0 d : Vec α) (nit : Nat) (hn : nit ≠ 0) (sf sf' : SF α) (maxIter : Nat)
+    (olog olog' : List (OReq α)) (stp? : Option α) (hc : Coh u.toSFUser sf)
+    (hx : InBoxF c.lb c.ub x0) (hd : d.length = x0.length)
+    (h : lineSearch u o c x0 f0 g0 d nit sf maxIter olog = .ok (sf', stp?, olog')) :
+    ∃ new, sf'.log = sf.log ++ new ∧ ∀ call ∈ new, ∃ a, 0 ≤ a ∧ a ≤ c.maxStep ∧
+      InBoxF c.lb c.ub (vadd x0 (smul a d)) ∧ EvalAt u.toSFUser sf.mode (vadd x0 (smul a d)) call := by
+  obtain ⟨new, hnew, hall⟩ := ls_steps_in_range u o ho c x0 f0 g0 d nit sf sf' maxIter olog olog' stp? hc h
+  refine ⟨new, hnew, fun call hcall => ?_⟩
+  obtain ⟨a, ⟨h0, h1⟩, hev⟩ := hall call hcall
+  have h0' : 0 ≤ a := not_lt.1 h0
+  have h1' := not_lt.1 h1
+  obtain ⟨hin, hle⟩ := maxStep_feasible x0 d c.lb c.ub c.maxStep nit hn hx hd a h0' h1'
+  refine ⟨a, h0', le_trans h1' hle, hin, ?_⟩
+  rw [← ls_trials_on_ray x0 d c.lb c.ub c.maxStep nit hn hx hd a h0' h1']
+  exact hev
+
+end rayF
 
 /-! ### Non-vacuity (over ℚ): x = (0, 1), d = (2, -1), box [-1,1]² — the largest feasible step
 is 1/2 (first coordinate hits the upper bound). -/
@@ -129,6 +179,13 @@ instance : Dcsrch.DcOps ℚ := ⟨fun x => x * x, fun a b => decide (a ≤ b), f
 phi(1) = 16, phi'(1) = −8, extrapolates to the minimiser t = 5 -/
 example : Dcsrch.trace (Dcsrch.DC.new (1/1000 : ℚ) (1/10) (1/10) 0 10) 1 .start [(25, -10), (16, -8)]
     = [(1, .fg), (5, .fg)] := by decide +kernel
+/-- the hypothesis `ConcreteStepper` of (6)–(8) is met by the oracle record that plugs the model of
+DCSRCH into the driver (the stepper model is compared bit for bit with SciPy's on the calls
+recorded in real line searches, harness/props/c11.py) -/
+example (xbar : Vec ℚ → Vec ℚ → Mats ℚ → Vec ℚ) :
+    ConcreteStepper ({ xbar := xbar, dcNew := fun _ _ ftol gtol xtol stpmax => Dcsrch.DC.new ftol gtol xtol 0 stpmax,
+                       dcIter := Dcsrch.iterate } : Oracles ℚ (Dcsrch.DC ℚ)) :=
+  ⟨fun _ _ _ _ _ _ => rfl, fun _ _ _ _ _ => rfl⟩
 end nonvacuous
 
 end Lbfgsb.C11
